@@ -115,6 +115,7 @@ class Executor(Engine, ExprMixin, StmtMixin, CallMixin):
             spec = field_spec(classes, f)
         if spec is not None:
             self.assume(st, spec.assumption(nv))
+            self.assume_class_invariants(st, nv, spec)
         self.known_ref(st, nv)
         cond_none = Val.is_N(base.t) if (base.hint is None or base.hint.opt) else z3.BoolVal(False)
         arr = self.harr(st, f)
@@ -197,7 +198,9 @@ class Executor(Engine, ExprMixin, StmtMixin, CallMixin):
             if cond == 'maybe':
                 cnd = fresh('may_raise', BoolS)
             else:
+                # `raises` states when the exception is *permitted*; whether it happens is unknown
                 wd, cnd = self.eval_spec(pre, cond, c, env, pre)
+                cnd = And(cnd, fresh('may_raise', BoolS))
             post_exc = st.copy()
             g = And(st.guard, cnd)
             if not is_false(g):
@@ -220,6 +223,7 @@ class Executor(Engine, ExprMixin, StmtMixin, CallMixin):
             rt = fresh('res_' + c.qual.split('.')[-1])
         if rspec is not None:
             self.assume(st, rspec.assumption(rt))
+            self.assume_class_invariants(st, rt, rspec)
         if c.fresh_result:
             self.alloc_k += 1
             self.assume(st, z3.Implies(Val.is_R(rt), Val.r(rt) == self.alloc0 + self.alloc_k))
@@ -490,6 +494,7 @@ class Executor(Engine, ExprMixin, StmtMixin, CallMixin):
         t = z3.Const('p_' + name, Val)
         if spec is not None:
             self.assume(st, spec.assumption(t))
+            self.assume_class_invariants(st, t, spec)
         self.assume(st, z3.Implies(Val.is_R(t), Val.r(t) <= self.alloc0))
         v = V(t, spec)
         self.inputs[name] = v
@@ -548,7 +553,7 @@ class Executor(Engine, ExprMixin, StmtMixin, CallMixin):
         others = others + self.top_exits
         self.normal_guard = st.guard
         self.raise_guards = [x.state.guard for x in others if x.kind == 'raise']
-        self.allows_raises = bool(c.raises)
+        self.allows_raises = bool(c.raises) and c.no_return
         # postconditions on normal return
         env2 = dict(envl)
         if result is None:
